@@ -111,7 +111,7 @@ class Mean(object):
                 context = copy.deepcopy(self._cur_context)
                 sdata, scont = lena.flow.get_data_context(sval)
                 lena.context.update_recursively(context, scont)
-                yield _maybe_with_context(data, context)
+                yield _maybe_with_context(sdata, context)
         else:
             yield _maybe_with_context(mean, context)
 
